@@ -9,19 +9,40 @@ import (
 )
 
 func createLockFile(name string, perm os.FileMode) (LockFile, bool, error) {
-	acquiredExisting := false
-	if _, err := os.Stat(name); err == nil {
-		acquiredExisting = true
-	}
-	f, err := os.OpenFile(name, os.O_RDWR|os.O_CREATE, perm)
-	if err != nil {
-		return nil, false, err
-	}
-	if err := syscall.Flock(int(f.Fd()), syscall.LOCK_EX|syscall.LOCK_NB); err != nil {
-		if err == syscall.EWOULDBLOCK {
-			err = os.ErrExist
+	for {
+		// Creating the file exclusively tells reliably whether the lock file already existed.
+		acquiredExisting := false
+		f, err := os.OpenFile(name, os.O_RDWR|os.O_CREATE|os.O_EXCL, perm)
+		if os.IsExist(err) {
+			acquiredExisting = true
+			f, err = os.OpenFile(name, os.O_RDWR, perm)
+			if os.IsNotExist(err) {
+				// The lock file was removed by its owner in the meantime.
+				continue
+			}
 		}
-		return nil, false, err
+		if err != nil {
+			return nil, false, err
+		}
+		if err := syscall.Flock(int(f.Fd()), syscall.LOCK_EX|syscall.LOCK_NB); err != nil {
+			_ = f.Close()
+			if err == syscall.EWOULDBLOCK {
+				err = os.ErrExist
+			}
+			return nil, false, err
+		}
+		// The previous owner could have removed the file after it was opened here.
+		// Make sure the lock is held on the file the path refers to.
+		lockedInfo, err := f.Stat()
+		if err != nil {
+			_ = f.Close()
+			return nil, false, err
+		}
+		pathInfo, err := os.Stat(name)
+		if err != nil || !os.SameFile(lockedInfo, pathInfo) {
+			_ = f.Close()
+			continue
+		}
+		return &osLockFile{f, name}, acquiredExisting, nil
 	}
-	return &osLockFile{f, name}, acquiredExisting, nil
 }
